@@ -205,7 +205,7 @@ Print Assumptions C03_concat_value.
 Example C10_marshal_ex :
   json_of_value (fun _ => "1"%string)
     (VObj [("a"%string, VArr [VNum fone; VFun (CBuiltin "sum"); VNull]); ("b"%string, VStr "<x>")]) =
-    Some "{""a"":[1,"""",null],""b"":""<x>""}"%string /\
+    Some "{""a"":[1,"""",null],""b"":""\u003cx\u003e""}"%string /\
   json_of_value (fun _ => "1"%string) (VArr [VNum (fdiv fone fzero)]) = None /\
   concat_result (fun _ => "1"%string) (Some (VArr [VNum fone; VStr "a"])) None =
     inl (Some (VStr "[1,""a""]")).
@@ -226,15 +226,17 @@ Qed.
 Theorem C10_normalize_array_finite : forall l,
   forallb value_finite l = true -> value_finite (normalize_array l) = true.
 Proof.
-  intros [|x [|y r]] F; try (now rewrite value_finite_arr).
-  cbn in *. now rewrite andb_true_r in F.
+  intros [|x [|y r]] F; cbn [normalize_array]; try (now rewrite value_finite_arr).
+  cbn [forallb] in F. now rewrite andb_true_r in F.
 Qed.
 
 Theorem C10_collapse_finite : forall keep items,
   forallb value_finite items = true -> ovalue_finite (collapse keep items) = true.
 Proof.
   intros keep [|x [|y r]] F; try reflexivity.
-  - cbn in *. destruct keep; cbn; rewrite ?andb_true_r in *; auto.
+  - cbn [forallb collapse] in *. rewrite andb_true_r in F.
+    destruct keep; cbn [ovalue_finite]; [|exact F].
+    rewrite value_finite_arr. cbn [forallb]. now rewrite F.
   - unfold collapse, ovalue_finite. now rewrite value_finite_arr.
 Qed.
 
@@ -285,22 +287,22 @@ Proof.
   - cbn [flatten_deep]. rewrite value_finite_arr in F.
     induction IH as [|x r Hx _ IHr]; [reflexivity|]. cbn [forallb] in F.
     apply andb_true_iff in F as [F1 F2]. rewrite forallb_app', Hx, IHr; auto.
-  - unfold flatten_deep. cbn [forallb]. now rewrite F.
 Qed.
 
 Theorem C10_wildcard_finite : forall data,
   ovalue_finite data = true -> forallb value_finite (wildcard_items data) = true.
 Proof.
-  intros [v|] F; [|reflexivity]. cbn [wildcard_items].
+  intros [v|] F; [|reflexivity]. cbn [wildcard_items]. cbn [ovalue_finite] in F.
   assert (H : forallb value_finite (object_values v) = true).
   { destruct v; try reflexivity.
     - now rewrite <- value_finite_arr.
-    - cbn [object_values]. rewrite value_finite_obj in F. now rewrite forallb_map. }
+    - cbn [object_values]. rewrite value_finite_obj in F.
+      clear -F. induction m as [|[k x] r IH]; [reflexivity|]. cbn [map forallb snd] in *.
+      apply andb_true_iff in F as [F1 F2]. now rewrite F1, IH. }
   induction (object_values v) as [|x r IH]; [reflexivity|]. cbn [flat_map forallb] in *.
   apply andb_true_iff in H as [H1 H2]. rewrite forallb_app', IH by auto.
   rewrite andb_true_r. destruct x; try (cbn; rewrite ?andb_true_r; exact H1); try reflexivity.
-  - now apply flatten_deep_finite.
-  - unfold append_wildcard. cbn [forallb]. now rewrite H1.
+  now apply flatten_deep_finite.
 Qed.
 
 Theorem C10_descendants_finite : forall v,
@@ -319,3 +321,82 @@ Print Assumptions C10_collapse_finite.
 Print Assumptions C10_eval_name_finite.
 Print Assumptions C10_wildcard_finite.
 Print Assumptions C10_descendants_finite.
+
+(* ------------------------------------------------------------------------------------ *)
+(* 2. aggregates ($sum, $average, $max, $min, $count)                                    *)
+(* ------------------------------------------------------------------------------------ *)
+
+(* outcome of an aggregate: a finite value or "no value" in the unchanged world, or an error;
+   no panic, no fuel, no oracle *)
+Definition finite_or_error (m : M ovalue) (w : world) : Prop :=
+  (exists r, m w = Ok r w /\ ovalue_finite r = true) \/ (exists e, m w = Err e).
+
+Lemma numbers_of_finite l xs :
+  forallb value_finite l = true -> numbers_of l = Some xs -> forallb is_finite xs = true.
+Proof.
+  unfold numbers_of. destruct (all_numbers l) eqn:A; [|discriminate].
+  intros F H. inversion H; subst xs; clear H.
+  induction l as [|x r IH]; [reflexivity|]. cbn [forallb] in F. unfold all_numbers in A. cbn [forallb] in A.
+  apply andb_true_iff in F as [F1 F2]. apply andb_true_iff in A as [A1 A2].
+  destruct x; try discriminate. cbn. cbn in F1. rewrite F1. now apply IH.
+Qed.
+
+(** $sum: the model of the (repaired) port checks the total; the result is finite or an error *)
+Theorem C10_sum_finite : forall v w, ovalue_finite v = true -> finite_or_error (lib_sum v) w.
+Proof.
+  intros v w F. unfold finite_or_error, lib_sum.
+  destruct v as [[| | x | | l | |]|]; try (right; eexists; reflexivity).
+  - left. eexists. split; [reflexivity | exact F].
+  - destruct (numbers_of l); [|right; eexists; reflexivity].
+    destruct (is_finite (fold_left fadd l0 fzero)) eqn:E; [|right; eexists; reflexivity].
+    left. eexists. split; [reflexivity | exact E].
+Qed.
+
+Theorem C10_average_finite : forall v w, ovalue_finite v = true -> finite_or_error (lib_average v) w.
+Proof.
+  intros v w F. unfold finite_or_error, lib_average.
+  destruct v as [[| | x | | l | |]|]; try (right; eexists; reflexivity).
+  - left. eexists. split; [reflexivity | exact F].
+  - destruct l as [|y l']; [left; eexists; split; reflexivity|].
+    destruct (numbers_of (y :: l')); [|right; eexists; reflexivity].
+    destruct (is_finite _) eqn:E; [|right; eexists; reflexivity].
+    left. eexists. split; [reflexivity | exact E].
+Qed.
+
+Lemma extremum_in better xs m : extremum better xs = Some m -> In m xs.
+Proof.
+  destruct xs as [|x r]; [discriminate|]. cbn [extremum]. intro H. inversion H; subst m; clear H.
+  revert x. induction r as [|y r IH]; intro x; [left; reflexivity|].
+  cbn [fold_left]. destruct (better y x).
+  - destruct (IH y) as [E|I]; [right; left; exact E | right; right; exact I].
+  - destruct (IH x) as [E|I]; [left; exact E | right; right; exact I].
+Qed.
+
+(** $max / $min return a member of the array, so a finite number *)
+Theorem C10_minmax_finite : forall nm better v w,
+  ovalue_finite v = true -> finite_or_error (lib_minmax nm better v) w.
+Proof.
+  intros nm better v w F. unfold finite_or_error, lib_minmax.
+  destruct v as [[| | x | | l | |]|]; try (right; eexists; reflexivity).
+  - left. eexists. split; [reflexivity | exact F].
+  - destruct l as [|y l']; [left; eexists; split; reflexivity|].
+    destruct (numbers_of (y :: l')) as [xs|] eqn:N; [|right; eexists; reflexivity].
+    left. eexists. split; [reflexivity|].
+    destruct (extremum better xs) as [m|] eqn:E; [|reflexivity].
+    cbn. apply extremum_in in E. cbn [ovalue_finite] in F. rewrite value_finite_arr in F.
+    pose proof (numbers_of_finite _ _ F N) as Fx.
+    rewrite forallb_forall in Fx. now apply Fx.
+Qed.
+Print Assumptions C10_sum_finite.
+Print Assumptions C10_average_finite.
+Print Assumptions C10_minmax_finite.
+
+Example C10_sum_ex :
+  lib_sum (Some (VArr [VNum (f_of_Zexp 1 1023 false); VNum (f_of_Zexp 1 1023 false)])) (mkWorld []) =
+    Err (ELib "sum: not finite") /\
+  lib_sum (Some (VArr [VNum fone; VNum (f_of_Z 2)])) (mkWorld []) = Ok (Some (VNum (f_of_Z 3))) (mkWorld []) /\
+  lib_minmax "max" (fun n m => fltb m n) (Some (VArr [VNum fone; VNum (f_of_Z 7); VNum (f_of_Z 2)])) (mkWorld []) =
+    Ok (Some (VNum (f_of_Z 7))) (mkWorld []) /\
+  lib_average (Some (VArr [VNum fone; VNum (f_of_Z 2)])) (mkWorld []) =
+    Ok (Some (VNum (fdiv (f_of_Z 3) (f_of_Z 2)))) (mkWorld []).
+Proof. vm_compute. repeat split. Qed.
